@@ -135,19 +135,25 @@ class Driver:
         self.t = 0.0
 
     def run(self, requests: List[Dict[str, Any]]) -> List[Any]:
+        """Requests are grouped by model name `m`; each model has its own entry file Main/<m>.lean
+        (`lake env lean --run`).  Answers come back in request order."""
         if not requests:
             return []
         t0 = time.time()
-        inp = "\n".join(json.dumps(r, separators=(",", ":")) for r in requests) + "\n"
-        rc, out = _run(["lake", "env", "lean", "--run", "Driver.lean"], inp=inp)
+        res: List[Any] = [None] * len(requests)
+        by_model: Dict[str, List[int]] = {}
+        for i, r in enumerate(requests):
+            by_model.setdefault(r["m"], []).append(i)
+        for m, idxs in by_model.items():
+            inp = "\n".join(json.dumps(requests[i], separators=(",", ":")) for i in idxs) + "\n"
+            rc, out = _run(["lake", "env", "lean", "--run", f"Main/{m}.lean"], inp=inp)
+            lines = [l for l in out.split("\n") if l.strip()]
+            if rc != 0 or len(lines) != len(idxs):
+                raise RuntimeError(f"model driver {m} failed rc={rc} got {len(lines)} answers for {len(idxs)} requests: {out[-1500:]}")
+            for i, l in zip(idxs, lines):
+                try:
+                    res[i] = json.loads(l)
+                except Exception:
+                    res[i] = {"error": "unparsable driver answer: " + l[:200]}
         self.t += time.time() - t0
-        lines = [l for l in out.split("\n") if l.strip()]
-        if rc != 0 or len(lines) != len(requests):
-            raise RuntimeError(f"model driver failed rc={rc} got {len(lines)} answers for {len(requests)} requests: {out[-1500:]}")
-        res = []
-        for l in lines:
-            try:
-                res.append(json.loads(l))
-            except Exception:
-                res.append({"driver_error": l})
         return res
